@@ -140,6 +140,30 @@ def extraction(full=False):
     return du, dn, changed
 
 # ---------------------------------------------------------------------------------------
+# T0: translation of the C source -> RdsC/Translated.lean
+# ---------------------------------------------------------------------------------------
+def translation():
+    """Runs tools/c2lean.py on the current tree and rewrites lean/RdsC/Translated.lean if its content changed.
+    Returns (text or None, changed, message). The translator is deterministic; it never raises on a C change it does
+    not understand (such functions are listed as untranslated in the generated file)."""
+    out = os.path.join(WORK, "translated-%d.lean" % os.getpid())
+    os.makedirs(WORK, exist_ok=True)
+    r = run([sys.executable, os.path.join(VERIF, "tools", "c2lean.py"), "--repo", REPO, "--out", out])
+    if r.returncode != 0 or not os.path.exists(out):
+        return None, False, "c2lean failed: " + (r.stderr or r.stdout)[-1500:]
+    text = open(out).read()
+    os.unlink(out)
+    path = os.path.join(LEAN, "RdsC", "Translated.lean")
+    with Lock("lake"):
+        old = open(path).read() if os.path.exists(path) else None
+        changed = old != text
+        if changed:
+            with open(path + ".tmp", "w") as f:
+                f.write(text)
+            os.replace(path + ".tmp", path)
+    return text, changed, (r.stdout or "").strip()[-300:]
+
+# ---------------------------------------------------------------------------------------
 # Lean
 # ---------------------------------------------------------------------------------------
 def lake_build(targets, timeout=3000, locked=False):
